@@ -125,11 +125,11 @@ def drive(rec):
             atoms, o = project_mol(cr, m, n)
             off |= o
             t["unique"].append({"atoms": atoms})
-        for k, m in enumerate(cr.unit_cell_molecules()):
+        for k, m in enumerate(cr.unit_cell_molecules(**kw)):
             t["ucmols"][k]["idx"] = int(m.properties.get("asym_mol_idx", -1)) + 1
         # other questions asked of the crystal (neighbouring molecules, supercells, exports) leave its molecules where they are
         import numpy as np
-        before = [np.array(m.positions, copy=True) for m in cr.unit_cell_molecules()]
+        before = [np.array(m.positions, copy=True) for m in cr.unit_cell_molecules(**kw)]
         def shell_moved():
             # the neighbours handed out are the caller's to move (a dimer scan shifts them about)
             for m in cr.molecular_shell(mol_idx=0, radius=3.5):
@@ -146,7 +146,7 @@ def drive(rec):
                 use()
             except Exception:
                 pass
-        after = cr.unit_cell_molecules()
+        after = cr.unit_cell_molecules(**kw)
         if len(after) != len(before) or any(not np.array_equal(np.asarray(m.positions), b) for m, b in zip(after, before)):
             t["exc_unique"] = "MoleculesMovedByLaterCalls"
         # ... and the unit-cell atoms it hands out are still the ones it handed out before the molecules were asked for
